@@ -288,6 +288,28 @@ def specC05 (d : Judged) : Bool × String × String :=
           else (true, "", "")
       | _ => (true, "", "")
 
+/-- C03: applying the combined adjustment = applying each plugin's adjustment in turn, both
+    through the repository's own generator, family by family. Two stated weakenings: the
+    process environment is compared as a set of NAME=value entries (a variable re-set by a
+    later plugin is replaced in place sequentially but re-appended by the combined reply), and
+    the device cgroup allow rules of the combined reply must be among those of sequential
+    application (the generator never retracts the rule of a device a later plugin removes or
+    replaces; recorded as a known finding of C03 when they differ). -/
+def specC03 (d : Judged) : Bool × String × String :=
+  if d.obs.genErr != "" then (false, s!"generator failed: {d.obs.genErr}", "C03:generator-error") else
+  match d.obs.comb, d.obs.seq with
+  | some a, some b =>
+    let diff := (List.zip a.fams b.fams).find? fun ((n, x), (_, y)) => n != "envOrdered" && x != y
+    match diff with
+    | some ((n, x), (_, y)) => (false, s!"{n}: combined {x} /// sequential {y}", s!"C03:{n}")
+    | none =>
+      if a.devRules.any (fun r => !b.devRules.contains r) then
+        (false, s!"device cgroup rules: combined {a.devRules} has a rule sequential {b.devRules} lacks", "C03:devRules-extra")
+      else if a.devRules.length != b.devRules.length then
+        (false, s!"device cgroup rules: combined {a.devRules} /// sequential {b.devRules}", "C03:devRules-stale")
+      else (true, "", "")
+  | _, _ => (true, "", "")
+
 def finish (prop : String) (d : Judged) (s : Bool × String × String) : Verdict :=
   let (ok, why, sig) := s
   { agree := d.agree, spec := ok,
@@ -301,6 +323,7 @@ def judge (prop : String) (j : Json) : Except String Verdict := do
   let s := match prop with
     | "C01" => specC01 d
     | "C02" => specC02 d
+    | "C03" => specC03 d
     | "C04" => specC04 d
     | "C05" => specC05 d
     | _ => (true, "", "")
